@@ -322,7 +322,7 @@ class PointwiseAffine(Fam):
 
     def sample_cfg(self, rng, tier):
         shape = _anyshape(rng)
-        kind = str(rng.choice(["scalar", "full", "bcast"]))
+        kind = str(rng.choice(["scalar", "full", "bcast", "lead1", "lead1_full"]))
         return {"fam": self.name, "shape": shape, "kind": kind, "pseed": int(rng.integers(1 << 30)),
                 "deprecated": bool(rng.random() < 0.2)}
 
@@ -330,7 +330,11 @@ class PointwiseAffine(Fam):
         return [{"fam": self.name, "shape": [3], "kind": "scalar", "pseed": 1, "deprecated": False},
                 {"fam": self.name, "shape": [3], "kind": "full", "pseed": 2, "deprecated": True},
                 {"fam": self.name, "shape": [2, 2, 3], "kind": "bcast", "pseed": 3, "deprecated": False},
-                {"fam": self.name, "shape": [2, 2, 3], "kind": "full", "pseed": 4, "deprecated": False}]
+                {"fam": self.name, "shape": [2, 2, 3], "kind": "full", "pseed": 4, "deprecated": False},
+                # shift / scale written with a leading singleton batch axis, e.g. (1, C, 1, 1) against [N, C, H, W]
+                {"fam": self.name, "shape": [3, 2, 2], "kind": "lead1", "pseed": 5, "deprecated": False},
+                {"fam": self.name, "shape": [4], "kind": "lead1", "pseed": 6, "deprecated": False},
+                {"fam": self.name, "shape": [2, 3], "kind": "lead1_full", "pseed": 7, "deprecated": False}]
 
     def _params(self, cfg):
         g = np.random.default_rng(cfg["pseed"])
@@ -339,6 +343,10 @@ class PointwiseAffine(Fam):
             sshape = ()
         elif cfg["kind"] == "full":
             sshape = tuple(shape)
+        elif cfg["kind"] == "lead1_full":
+            sshape = (1,) + tuple(shape)
+        elif cfg["kind"] == "lead1":
+            sshape = (1, shape[0]) + (1,) * (len(shape) - 1)
         else:
             sshape = (shape[0],) + (1,) * (len(shape) - 1)
         scale = np.exp(g.standard_normal(sshape) * 0.7) * g.choice([-1.0, 1.0], size=sshape)
